@@ -232,13 +232,22 @@ func visitInline(fw *formatWriter, source []byte, cursor *commonmark.Cursor) boo
 			return false
 		}
 
-		for s := spanSlice(source, child.Span()); len(s) > 0; {
+		text := spanSlice(source, child.Span())
+		for s := text; len(s) > 0; {
 			r, n := utf8.DecodeRune(s)
 			if r == '\n' && cursor.ParentBlock().Kind() == commonmark.SetextHeadingKind {
 				s = s[n:]
 				continue
 			}
-			if strings.ContainsRune(`\[]*_-+=<>&#~`+"`", r) {
+			switch {
+			case strings.ContainsRune(`\[]*_-+=<>&#~`+"`", r):
+				fw.s(`\`)
+			case r == '!' && n == len(s) && isFollowedByLink(cursor):
+				// Otherwise the link would be read as an image.
+				fw.s(`\`)
+			case (r == '.' || r == ')') && (n >= len(s) || s[n] == ' ' || s[n] == '\t') &&
+				followsLineOfDigits(source, cursor, text[:len(text)-len(s)]):
+				// Otherwise the line would be read as an ordered list item.
 				fw.s(`\`)
 			}
 			fw.b(s[:n])
@@ -254,6 +263,47 @@ func visitInline(fw *formatWriter, source []byte, cursor *commonmark.Cursor) boo
 		fw.b(spanSlice(source, child.Span()))
 		return false
 	}
+}
+
+// isFollowedByLink reports whether the cursor's next sibling is a link.
+func isFollowedByLink(cursor *commonmark.Cursor) bool {
+	parent, next := cursor.Parent(), cursor.Index()+1
+	return next < parent.ChildCount() && parent.Child(next).Inline().Kind() == commonmark.LinkKind
+}
+
+// followsLineOfDigits reports whether the text of the cursor's line
+// up to and including prefix (the start of the cursor's own text)
+// consists of one or more ASCII digits and nothing else.
+func followsLineOfDigits(source []byte, cursor *commonmark.Cursor, prefix []byte) bool {
+	n := len(prefix)
+	if !isASCIIDigits(prefix) {
+		return false
+	}
+	for i := cursor.Index() - 1; i >= 0; i-- {
+		sibling := cursor.Parent().Child(i).Inline()
+		switch sibling.Kind() {
+		case commonmark.TextKind:
+			text := spanSlice(source, sibling.Span())
+			if !isASCIIDigits(text) {
+				return false
+			}
+			n += len(text)
+		case commonmark.SoftLineBreakKind, commonmark.HardLineBreakKind, commonmark.IndentKind:
+			return n > 0
+		default:
+			return false
+		}
+	}
+	return n > 0
+}
+
+func isASCIIDigits(b []byte) bool {
+	for _, c := range b {
+		if c < '0' || c > '9' {
+			return false
+		}
+	}
+	return true
 }
 
 func postInline(fw *formatWriter, source []byte, cursor *commonmark.Cursor) {
